@@ -99,6 +99,31 @@ def chunk_repr(c):
     return [hx(c[0]), bool(c[1]), bool(c[2])]
 
 
+class ParentExit(Exception):
+    """The code under test called os._exit in the harness process itself (only a fork child may)."""
+
+
+class guard_exit(object):
+    """While active, `os._exit` in THIS process raises instead of silently ending the check with status 0;
+    fork children (other pid) exit normally."""
+
+    def __enter__(self):
+        self.pid = os.getpid()
+        self.real = os._exit
+        me = self
+
+        def _exit(code):
+            if os.getpid() == me.pid:
+                raise ParentExit("os._exit(%r) called in the parent process" % (code,))
+            me.real(code)
+        os._exit = _exit
+        return self
+
+    def __exit__(self, *exc):
+        os._exit = self.real
+        return False
+
+
 class Unpicklable(object):
     """Makes pickle.dump raise in the middle of a dump write."""
 
@@ -164,10 +189,11 @@ class RealLink(object):
         ser, fn, mode, fork = (self.S, self.fnS, self.sm, self.sf) if which == "S" else (self.R, self.fnR, self.rm, self.rf)
         busy = priv(ser, "pid") != 0
         raised = False
-        try:
-            ser.serialize(data, ident)
-        except ValueError:
-            raised = True
+        with guard_exit():
+            try:
+                ser.serialize(data, ident)
+            except ValueError:
+                raised = True
         pid = priv(ser, "pid")
         fail = False
         pieces = []
